@@ -514,7 +514,7 @@ class Machine:
         rest = reg.vals[i:]
         if len(rest) == 0:
             return "ok:-"
-        if level == 0 and self.cfg.pf is not None:
+        if level == 0 and self.cfg.pf is not None and self.cfg.pf > 1:
             items = ["P:" + fmt_hex(v) for v in rest]
         else:
             block = 2**level
